@@ -36,3 +36,41 @@ static std::string show_matrix(const std::vector<std::vector<I>> &m, int n)
   for (int i = 0; i < n; i++) { s += "["; for (int j = 0; j < n; j++) s += (m[i][j] == idl_theory::inf() ? std::string("inf") : std::to_string(m[i][j])) + " "; s += "]"; }
   return s;
 }
+
+// ---- expression queries (C12): lin rebuilt from slots (base: n, then (key, num, den)*, base+20/21 constant term),
+// the distance matrix from base 300 (no sentinel mapping: finite entries only), the ghost valuation from base 400
+#include <stdexcept>
+#include "lin.h"
+static rational mk_rat(long n, long d) { rational r; r.num = n; r.den = d; return r; }
+static lin mk_lin(int base)
+{
+  lin l;
+  for (long i = 0; i < S[base]; i++) l.vars.emplace((var)S[base + 1 + 3 * i], mk_rat(S[base + 2 + 3 * i], S[base + 3 + 3 * i]));
+  l.known_term = mk_rat(S[base + 20], S[base + 21]);
+  return l;
+}
+static idl_theory *build_idl_q(sat_core &sat, int n)
+{
+  idl_theory *th = new idl_theory(sat, n);
+  th->n_vars = n;
+  for (int i = 0; i < n; i++) for (int j = 0; j < n; j++) th->_dists[i][j] = S[300 + i * n + j];
+  return th;
+}
+static rational lin_value(const lin &l, int n) { rational v = l.known_term; for (const auto &t : l.vars) v += t.second * rational(S[400 + t.first]); return v; }
+static std::string show(const lin &l) { return to_string(l); }
+// the interval derived from the variable-level distances for k, c*x + k, c*(x - y) + k (integer c, k); ok = false otherwise
+struct q_bounds { bool ok; long lo, hi; };
+static q_bounds bounds_of(const idl_theory &th, const lin &l)
+{
+  q_bounds r{false, 0, 0};
+  if (l.known_term.den != 1) return r;
+  long k = l.known_term.num;
+  std::vector<std::pair<var, long>> ts;
+  for (const auto &t : l.vars) { if (t.second.num == 0) continue; if (t.second.den != 1) return r; ts.push_back({t.first, (long)t.second.num}); }
+  if (ts.empty()) return q_bounds{true, k, k};
+  long rlo, rhi, c = ts[0].second;
+  if (ts.size() == 1) { rlo = -th._dists[ts[0].first][0]; rhi = th._dists[0][ts[0].first]; }
+  else if (ts.size() == 2 && ts[0].second == -ts[1].second) { rlo = -th._dists[ts[0].first][ts[1].first]; rhi = th._dists[ts[1].first][ts[0].first]; }
+  else return r;
+  return q_bounds{true, (c > 0 ? c * rlo : c * rhi) + k, (c > 0 ? c * rhi : c * rlo) + k};
+}
